@@ -67,6 +67,9 @@ CORPUS = [
     ("multiline-text", HEAD + "audience\n  z expects always: [bob s] > 2 \\\n      && [bob s] < 5\nend\n", []),
     ("multiline-text", "title a tale \\\n  of two lines\n", []),
     ("empty-title", "title x~p~\ntitle ~p~\nattention ~p~\n", ["p="]),
+    # a clause whose text ends in a backslash (followed by a blank in the source, so not a continuation there)
+    ("final-backslash", "role A\n  :a printf x\\\\ \nend\naudience\n  w measures C:\\ \nend\n", []),
+    ("final-backslash", "title the end\\ \nauthor nobody\n", []),
 ]
 KNOWN_PROBES = [
     ("param-value-tilde", "parameter p defaults to ~q~\ntitle hello ~p~\n", []),
@@ -83,7 +86,7 @@ def classify(err, cfg_text):
     if "undefined parameter" in e:
         return "param-value-tilde"
     if "unknown syntax" in e:
-        return "multiline-text" if "\\\n" in cfg_text else "unprintable-text"
+        return "multiline-text" if "\\\n" in cfg_text else "final-backslash" if "\\ \n" in cfg_text else "unprintable-text"
     return "reload-rejected"
 
 
@@ -330,6 +333,33 @@ def run(tier, seed):
             got = first[len("title v="):] if first.startswith("title v=") else None
         if m in (None, "-", "bad-op") or got is None or unhex(m) != got:
             pdis.append({"config": text, "defines": defines, "impl_first_line": r.get("Printed", r.get("Err"))[:80], "model": m})
+    # ---- K-C10t / O-C10t: the text layer — escapeNl against the reader's continuation lines ----------------
+    tdis, tfail = [], []
+    TEXT_CORPUS = [b"x\\", b"\\", b"a\\\nb", b"a\nb\\", b"a\\\\", b"", b"a\n\nb", b"a \\ ", b"\\\n\\", b"C:\\"]
+    pres = [b"  :a ", b"title ", b"  w measures ", b"  z expects always: ", b"  cleanup ", b"attention "]
+    for i in range(len(TEXT_CORPUS) + (400 if tier == "quick" else 6000)):
+        if i < len(TEXT_CORPUS):
+            t = TEXT_CORPUS[i]
+        else:
+            t = bytes(rng.pick([97, 98, 32, 92, 92, 10, 10, 9, 58, 35, 126]) for _ in range(rng.range(0, 12)))
+        pre = pres[i % len(pres)] if i < len(TEXT_CORPUS) else rng.pick(pres)
+        rest = rng.pick([b"end\n", b"end\n", b"end", b"", b"next \\\nline\nend\n"])
+        r = impl.call("escapeRead", Pre=pre.hex(), T=t.hex(), Rest=rest.hex())
+        m = model.ask("C10 esc %s %s %s" % (hexs(pre), hexs(t), hexs(rest)))
+        rep.case(("text", pre, t, rest))
+        rep.count("text: %s%s" % ("ends in a backslash" if t.endswith(b"\\") else "other ending", ", multi-line" if b"\n" in t else ""))
+        mt = (m or "").split(" ")
+        lines = r.get("lines") or []
+        got = "x%s %s" % (r.get("esc"), ("x%s %d" % (lines[0], (r["starts"][1] - 1) if len(lines) > 1 else -1)) if lines else "eof" if r.get("err") else "none")
+        if len(mt) == 3 and len(lines) == 1:
+            mt[2] = "-1"        # nothing follows: the number of lines consumed is not observable
+        if " ".join(mt) != got:
+            tdis.append({"pre": pre.decode(), "text": t.decode("latin-1"), "rest": rest.decode(), "impl": got, "model": m, "err": r.get("err")})
+        # the property: the clause read back is the clause printed, and the following clause is still there
+        want = (pre + t).strip(b" \t\n\r\v\f")
+        if r.get("err") or not lines or bytes.fromhex(lines[0]) != want or (rest.startswith(b"end") and (len(lines) < 2 or bytes.fromhex(lines[1]) != b"end")):
+            tfail.append({"pre": pre.decode(), "text": t.decode("latin-1"), "rest": rest.decode(), "printed": bytes.fromhex(r.get("esc") or "").decode("latin-1"),
+                          "read_back": [bytes.fromhex(l).decode("latin-1") for l in lines], "err": r.get("err")})
     # ---- E-C10: the real binary -------------------------------------------------------------------
     plays = []
     for g, r1 in e2e_cases:
@@ -387,6 +417,10 @@ def run(tier, seed):
                    json.dumps(ck.kdis[:2], default=str)[:1800])
     rep.obligation("K-C10-param: substituted value = lookupP (pVars defines defaults) (theorem defines_precedence)", "K", not pdis,
                    json.dumps(pdis[:2], default=str)[:1200])
+    rep.obligation("K-C10t: escapeNl and the reader's joining of continuation lines = model (Escape.escapeNl, Reader.gather) on generated texts", "K", not tdis,
+                   json.dumps(tdis[:2], default=str)[:1200])
+    rep.obligation("O-C10t: a clause text printed through escapeNl is read back as the same clause, and the next clause is still read (theorem escaped_text_reads_back)", "O", not tfail,
+                   json.dumps(tfail[:2], default=str)[:1200])
     rep.obligation("K-C10-gen: every generated configuration is accepted by the implementation (generator = documented syntax)", "K",
                    not rejected, json.dumps(rejected[:2], default=str)[:1500])
     rep.obligation("E-C10: -n -p of the binary and result.js Config (%d plays)" % len(plays), "O", not efail, json.dumps(efail[:2], default=str)[:1800])
@@ -396,11 +430,13 @@ def run(tier, seed):
                       dict(d, failing_inputs=len(ds)), tags={"kind": k})
     for f in efail[:3]:
         rep.violation(f["problem"], f, tags={"kind": "e2e"})
-    if not (set(kinds) - known_kinds) and not efail:
+    if tfail:
+        rep.violation("a clause text printed by printCfg is not read back as printed", dict(tfail[0], failing_inputs=len(tfail)), tags={"kind": "text-layer"})
+    if not (set(kinds) - known_kinds) and not efail and not tfail:
         if not ok:
             rep.violation("proof obligations of C10 no longer check", {"broken_theorems": info["failed"], "lean_output": info["output"][-3000:]}, nofail=True)
-        elif ck.kdis or pdis:
-            rep.violation("correspondence K-C10 disagrees", {"broken": "K-C10", "disagreements": (ck.kdis + pdis)[:5]}, nofail=True)
+        elif ck.kdis or pdis or tdis:
+            rep.violation("correspondence K-C10 disagrees", {"broken": "K-C10", "disagreements": (ck.kdis + pdis + tdis)[:5]}, nofail=True)
         elif rejected:
             rep.violation("generated configurations of the documented syntax are rejected", {"broken": "K-C10-gen", "rejected": rejected[:5]}, nofail=True)
     ck.close()
